@@ -283,8 +283,14 @@ def _momentum_model(rep, prog):
     for i, c in enumerate('xyz'):
         st, gt = prog.fn('bxdecay0::particle::set_p' + c), prog.fn('bxdecay0::particle::get_p' + c)
         w = [n for n in astu.walk(st['body']) if n['k'] == 'Bin' and n['op'] in statics.ASSIGN_OPS]
-        calls_ = list(astu.calls(st['body']))
-        if len(w) != 1 or calls_ or astu.root_of(w[0]['a']) is None or astu.src(astu.strip_casts(w[0]['b'])) != st['params'][0]['name'] \
+        # a subscript of a std::array member is a storage slot like a C array element, not a call
+        def _slot_subscript(c_):
+            return c_['k'] == 'OpCall' and c_.get('op') == '[]' and 'std::array' in c_['callee'].get('qn', '')
+        calls_ = [c_ for c_ in astu.calls(st['body']) if not _slot_subscript(c_)]
+        tgt = w[0]['a'] if len(w) == 1 else None
+        if tgt is not None and _slot_subscript(astu.strip_casts(tgt)):
+            tgt = astu.strip_casts(tgt)['args'][0]
+        if len(w) != 1 or calls_ or astu.root_of(tgt) is None or astu.src(astu.strip_casts(w[0]['b'])) != st['params'][0]['name'] \
                 or w[0]['op'] != '=':
             bad.append('set_p%s is not a single store of its argument' % c)
             continue
